@@ -80,7 +80,7 @@ def dialect_cell(stream, abstract, src):
 
 def run(tier, seed):
     ctx = core.Ctx("C17", tier, seed, LEVEL)
-    srcs = streams.exploration_sources(ctx, tier, seed, caps={"arms": 20000, "c15": 8000}, which=("arms", "c15", "c04", "repo"))
+    srcs = streams.exploration_sources(ctx, tier, seed, caps={"arms": 20000, "c15": 8000}, which=("arms", "c15", "c04", "c08", "repo"))
     from checks import c15, c04
     for c in streams.tlc_cases(ctx, "MC_C04", "MC_C04_forms", 4000 if tier == "quick" else None, seed):      # qualified / generic counterpart and error types
         srcs.append(("c04forms", c, c04.concretize(c, "struct")))
